@@ -27,6 +27,7 @@ type SpecEnv struct {
 	pc    *PkgContracts
 	depth int
 	lets  []*LetDef // macros: evaluated at use in the current environment
+	litType types.Type // bv mode: type given to untyped integer literals (nil = mathematical Int)
 }
 
 type specError struct{ msg string }
@@ -192,6 +193,11 @@ func (e *SpecEnv) eval(x ast.Expr) Val {
 			n, ok := new(big.Int).SetString(strings.ReplaceAll(v.Value, "_", ""), 0)
 			if !ok {
 				specFail("bad int literal %s", v.Value)
+			}
+			if e.c.ar.bv && e.litType != nil {
+				if ii, ok := isIntType(e.litType); ok {
+					return Scalar{e.c.ar.lit(n, ii), e.c.ar.intSort(ii), e.litType}
+				}
 			}
 			return e.intLit(n)
 		case token.FLOAT:
@@ -498,13 +504,52 @@ func (e *SpecEnv) binary(v *ast.BinaryExpr) Val {
 	boolT := types.Typ[types.Bool]
 	switch v.Op {
 	case token.LAND:
+		if e.litType != nil {
+			e = e.sub()
+			e.litType = nil
+		}
 		a, b := e.evalBool(v.X), e.evalBool(v.Y)
 		return Scalar{mkAnd(a, b), SBool, boolT}
 	case token.LOR:
+		if e.litType != nil {
+			e = e.sub()
+			e.litType = nil
+		}
 		a, b := e.evalBool(v.X), e.evalBool(v.Y)
 		return Scalar{mkOr(a, b), SBool, boolT}
 	}
+	outer := e
+	if e.litType != nil {
+		e = e.sub()
+		e.litType = nil
+	}
 	av, bv := e.eval(v.X), e.eval(v.Y)
+	if outer.litType != nil && e.c.ar.bv {
+		// both operands untyped: literals take the hinted type
+		as, aok := av.(Scalar)
+		bs, bok := bv.(Scalar)
+		if aok && bok && as.S == SInt && bs.S == SInt {
+			av, bv = outer.evalHinted(v.X), outer.evalHinted(v.Y)
+		}
+	}
+	if e.c.ar.bv && v.Op != token.SHL && v.Op != token.SHR {
+		as, aok := av.(Scalar)
+		bs, bok := bv.(Scalar)
+		if aok && bok {
+			isBV := func(s Scalar) bool { return strings.HasPrefix(string(s.S), "(_ BitVec") }
+			_, anum := isNumeral(as.T)
+			_, bnum := isNumeral(bs.T)
+			if as.S == SInt && !anum && isBV(bs) {
+				n := e.sub()
+				n.litType = bs.Ty
+				av = n.eval(v.X)
+			} else if bs.S == SInt && !bnum && isBV(as) {
+				n := e.sub()
+				n.litType = as.Ty
+				bv = n.eval(v.Y)
+			}
+		}
+	}
 	if v.Op == token.EQL || v.Op == token.NEQ {
 		as, aok := av.(Scalar)
 		bs, bok := bv.(Scalar)
@@ -596,6 +641,20 @@ func (e *SpecEnv) binary(v *ast.BinaryExpr) Val {
 	t, _ := e.c.ar.binop(v.Op, as.T, bs.T, ii, iy)
 	return Scalar{t, as.S, rt}
 }
+
+func (e *SpecEnv) evalHinted(x ast.Expr) Val {
+	// evaluate with the literal-type hint kept (used when no operand fixes the type)
+	if bl, ok := x.(*ast.BasicLit); ok {
+		return e.eval(bl)
+	}
+	if p, ok := x.(*ast.ParenExpr); ok {
+		return e.evalHinted(p.X)
+	}
+	n := e.sub()
+	return n.evalKeep(x)
+}
+
+func (e *SpecEnv) evalKeep(x ast.Expr) Val { return e.eval(x) }
 
 func mkAnd(a, b string) string {
 	if a == "true" {
@@ -756,7 +815,12 @@ func (e *SpecEnv) callExpr(v *ast.CallExpr) Val {
 			a, b := e.evalBool(v.Args[0]), e.evalBool(v.Args[1])
 			return Scalar{fmt.Sprintf("(= %s %s)", a, b), SBool, boolT}
 		case "ite":
-			cnd := e.evalBool(v.Args[0])
+			ce := e
+			if e.litType != nil {
+				ce = e.sub()
+				ce.litType = nil
+			}
+			cnd := ce.evalBool(v.Args[0])
 			a, b := e.eval(v.Args[1]), e.eval(v.Args[2])
 			if as, ok := a.(Scalar); ok {
 				if bs, ok := b.(Scalar); ok && as.S != SRef {
